@@ -1,6 +1,7 @@
 package main
 
 import (
+	"bytes"
 	"context"
 	"fmt"
 	"math/rand"
@@ -81,8 +82,12 @@ func (j *liveJudge) step(o liveObs) (fs []liveFinding, changed bool) {
 	changed = !seen || p.Term != o.Term || p.Leader != o.Leader
 	if seen {
 		if o.Term < p.Term {
-			fs = append(fs, liveFinding{"live-header-term-regressed", fmt.Sprintf("node %d shard %d: raft_term went from %d (leader %d) to %d (leader %d) for observer %s",
-				o.Node, o.Shard, p.Term, p.Leader, o.Term, o.Leader, o.Observer), o, p})
+			sig := "live-header-term-regressed"
+			if o.Src == "header:iterate-range" {
+				sig += ":range-stream-message" // a later message of a still open range stream
+			}
+			fs = append(fs, liveFinding{sig, fmt.Sprintf("node %d shard %d: raft_term went from %d (leader %d, %s) to %d (leader %d, %s) for observer %s",
+				o.Node, o.Shard, p.Term, p.Leader, p.Src, o.Term, o.Leader, o.Src, o.Observer), o, p})
 		}
 		if p.Leader != 0 && o.Leader == 0 {
 			fs = append(fs, liveFinding{"live-header-leader-reset-to-none", fmt.Sprintf("node %d shard %d: raft_leader_id went from %d (term %d) back to 0 (term %d) for observer %s",
@@ -203,6 +208,19 @@ func runLive(r *ev.Run, seed int64, episodes, transfers int) {
 		}
 	}
 	defer c.Close()
+	// three 2 MiB values under their own prefix: a range over them is streamed in several
+	// messages (a message is cut at 4 MiB), which the stream probes below rely on
+	bigOK := true
+	for i := 0; i < 3; i++ {
+		ctx, cancel := context.WithTimeout(context.Background(), 20*time.Second)
+		_, err := c.Nodes[0].Engine.Put(ctx, &pb.PutRequest{Table: []byte("t"), Key: []byte(fmt.Sprintf("zbig%d", i)), Value: bytes.Repeat([]byte{byte('a' + i)}, 2<<20)})
+		cancel()
+		if err != nil {
+			bigOK = false
+			r.Note("live: could not store the 2 MiB values for the stream probes: " + err.Error())
+			break
+		}
+	}
 	m := &liveMon{r: r, seed: seed, k: transfers, eps: episodes, j: newLiveJudge(), reported: map[string]bool{}}
 
 	var stop atomic.Bool
@@ -344,9 +362,79 @@ func runLive(r *ev.Run, seed int64, episodes, transfers int) {
 		return false, lastState
 	}
 
+	// streamProbe: one observer reads a multi-message range stream from node n; after the first
+	// message the table shard's leader is moved, the node's view is refreshed from its own
+	// NodeHost (what Cluster.Notify / LocalState do) and the same observer gets a unary answer
+	// from the node; then it consumes the rest of the stream. All answers of the node to this
+	// one observer, in the order they were handed out, go to the monitor.
+	streamProbe := func(ep int, n *cluster.Node) {
+		obs := fmt.Sprintf("stream%d-n%d", ep, n.ID)
+		for dl := time.Now().Add(5 * time.Second); time.Now().Before(dl); time.Sleep(5 * time.Millisecond) {
+			if _, _, ok := raft(shard); ok {
+				break
+			}
+		}
+		n.Engine.Cluster.Notify()
+		ctx, cancel := context.WithTimeout(context.Background(), 60*time.Second)
+		defer cancel()
+		seq, err := n.Engine.IterateRange(ctx, &pb.RangeRequest{Table: []byte("t"), Key: []byte("zbig"), RangeEnd: []byte("zbih")})
+		if err != nil {
+			r.Count("live_stream_probes_failed_to_open", 1)
+			return
+		}
+		msgs, kvs := 0, 0
+		var t1, t2 uint64
+		seq(func(resp *pb.RangeResponse) bool {
+			msgs++
+			kvs += len(resp.Kvs)
+			hdr(obs, "iterate-range", n.ID, resp.Header)
+			if msgs != 1 {
+				return true
+			}
+			t1 = resp.Header.RaftTerm
+			// move the leader until Raft (all three nodes) is in a later term than message 1 reported
+			for try := 0; try < 4; try++ {
+				l, tm, ok := raft(shard)
+				if ok && tm > t1 {
+					break
+				}
+				if ok {
+					_ = c.Nodes[l-1].Engine.NodeHost.RequestLeaderTransfer(shard, 1+l%3)
+					r.Count("live_transfers_requested", 1)
+				}
+				for dl := time.Now().Add(2 * time.Second); time.Now().Before(dl); time.Sleep(2 * time.Millisecond) {
+					if _, tm, ok := raft(shard); ok && tm > t1 {
+						break
+					}
+				}
+			}
+			n.Engine.Cluster.Notify()
+			uctx, ucancel := context.WithTimeout(context.Background(), 5*time.Second)
+			u, err := n.Engine.Range(uctx, &pb.RangeRequest{Table: []byte("t"), Key: []byte("k0")})
+			ucancel()
+			if err == nil {
+				hdr(obs, "range", n.ID, u.Header)
+				t2 = u.Header.RaftTerm
+			}
+			return true
+		})
+		r.Count("live_stream_messages", int64(msgs))
+		switch {
+		case msgs < 2 || kvs != 3:
+			r.Count("live_stream_probes_single_message_or_incomplete", 1)
+		case t2 <= t1:
+			r.Count("live_stream_probes_without_term_change", 1)
+		default:
+			r.Count("live_stream_probes_with_midstream_term_change", 1)
+		}
+	}
+
 	done, notDone, converged, stale, refreshed := 0, 0, 0, 0, 0
 	var lastState string
 	for ep := 0; ep < episodes; ep++ {
+		if bigOK {
+			streamProbe(ep, c.Nodes[(uint64(ep)+uint64(seed))%uint64(len(c.Nodes))])
+		}
 		for k := 0; k < transfers; k++ {
 			s := shard
 			if k%4 == 3 && k != transfers-1 {
